@@ -23,6 +23,9 @@ def run(R):
                 rb = bytes(R.rng.randrange(256) for _ in range(n))
                 for e in ("rn", "ra", "st"):
                     gops.append("G %s %s %d %s %d 192" % (e, hx(pfx), c, hx(rb) if n else ".", n)); gmeta.append((m, c, n, e, pfx))
+                # output sizes beyond CRYPT_GENSALT_OUTPUT_SIZE: the result must stay < 192 characters and not depend on the size (seeded/C10)
+                for osz in ([193, R.rng.choice([200, 256, 300, 384]), R.rng.choice([512, 1024, 4096])] if quick else [193, 200, 256, 300, 384, 512, 1024, 4096, 65536]):
+                    gops.append("G rn %s %d %s %d %d" % (hx(pfx), c, hx(rb) if n else ".", n, osz)); gmeta.append((m, c, n, "rn-big", pfx))
     # a full hash / setting as prefix selects the method of its tag
     for m, h in sample_hashes.items():
         for n in (16, 64):
@@ -35,12 +38,15 @@ def run(R):
     bad = []
     # oracle part 1: properties of the generated string, agreement of the entry points
     byreq = {}
+    bigreq = {}
     cops, cinfo = [], []
     for op, (m, c, n, e, pfx), line in zip(gops, gmeta, il):
         f = fields(line)
         key = (m, c, n, op.split(" ")[4])
         if e in ("rn", "ra", "st"):
             byreq.setdefault(key, {})[e] = f["ret"]
+        if e == "rn-big":
+            bigreq.setdefault(key, []).append((op, f["ret"], line))
         if f["ret"] == "NULL": continue
         s = unhx(f["ret"])
         mm = m if m != "NULL" else "yescrypt"
@@ -48,7 +54,7 @@ def run(R):
             bad.append((op, "generated setting %r is not a passwd-safe string shorter than CRYPT_GENSALT_OUTPUT_SIZE" % s, line))
         if not s.startswith(GS.TAGS[mm]) or (mm in ("descrypt", "bigcrypt") and CS.method_of(s) != "des-family"):
             bad.append((op, "generated setting %r does not carry the tag of the selected method %s" % (s, mm), line))
-        if e == "rn":
+        if e == "rn" or (e == "rn-big" and byreq.get(key, {}).get("rn") == "NULL" and op == bigreq[key][0][0]):
             cops.append("K " + hx(s)); cinfo.append(("checksalt", mm, s, op))
             cost = {"sha256crypt": 2, "sha512crypt": 3}.get(mm, 1) * (GS.decode_cost(mm, s) if mm in ("sha256crypt", "sha512crypt", "sha1crypt", "sunmd5", "bsdicrypt") else 1)
             heavy = ("yescrypt" in mm and GS.decode_cost(mm, s)[1] > 10) or mm == "scrypt" or cost > (150000 if quick else 3000000)
@@ -59,6 +65,16 @@ def run(R):
     for key, d in byreq.items():
         if len(set(d.values())) > 1:
             bad.append(("G * %s %d %s %d" % (hx(GS.TAGS.get(key[0])), key[1], key[3], key[2]), "the three entry points disagree: %r" % d, str(d)))
+    # the result is a function of (prefix, count, random bytes): a larger output buffer never changes a result obtained with 192 bytes,
+    # and all larger sizes that succeed agree with each other
+    for key, lst in bigreq.items():
+        r192 = byreq.get(key, {}).get("rn")
+        succ = [(op, r, line) for op, r, line in lst if r != "NULL"]
+        if r192 not in (None, "NULL"):
+            for op, r, line in lst:
+                if r != r192: bad.append((op, "crypt_gensalt_rn result depends on output_size: %s with 192 bytes, %s here" % (r192, r), line))
+        elif len({r for _, r, _ in succ}) > 1:
+            bad.append((succ[0][0], "crypt_gensalt_rn result depends on output_size: %r" % sorted({r for _, r, _ in succ}), succ[0][2]))
     # full hash as prefix == its tag as prefix
     fh = {}
     for op, (m, c, n, e, pfx), line in zip(gops, gmeta, il):
@@ -84,7 +100,7 @@ def run(R):
                 bad.append((gop, "the hash %r does not have the generated setting %r as a literal prefix" % (unhx(f["out"]), s), line))
     R.cov["evaluations"] = len(gops) + len(cops)
     R.cov["distinct_nontrivial"] = len({(m[0], m[1], m[2]) for m in gmeta})
-    R.cov["rule"] = ("15 prefixes + NULL + full hashes as prefix x cheap/valid count classes x nrbytes classes 0..256 x {rn, ra, static}; each generated setting "
+    R.cov["rule"] = ("15 prefixes + NULL + full hashes as prefix x cheap/valid count classes x nrbytes classes 0..256 x {rn, ra, static} at output size 192, plus crypt_gensalt_rn at output sizes 193..65536 (result < 192 characters and independent of the size); each generated setting "
                      "goes to crypt_checksalt and (compute budget permitting) to crypt with two phrases; non-trivial = distinct (prefix, count, nrbytes)")
     R.cov["samples"] = [{"op": gops[i][:200], "impl": il[i][:200], "model": ml[i][:200]} for i in R.rng.sample(range(len(gops)), 4)]
     finish_proof(R, ok, badthm, bad, diffs, "gensalt accepted")
